@@ -21,7 +21,8 @@ RULE = ("five relations, each with its own generator. (1) totality: any 112-bit 
         "false, label absent. (5) is50or60: payloads satisfying both layouts by construction, or only one; None unless both; the named interpretation is the one whose "
         "velocity vector is nearest the reference (1 m/s margin, ambiguous cases counted not judged). non-trivial = payload accepted by >= 1 predicate, every soundness "
         "case, every is50or60 case where both apply"
-        ' Also: DF20 altitudes from -1000 to 50000 ft with the edge of the 20 kt IAS/Mach rule, BDS 5,3 status rules (is53), is50or60 reference altitudes from -1000 to 50000 ft incl. -1, 0, 1 as ints and floats, helper calls on the same string first, 10 000 real DF20/21 replies labelled by the reference rules (leg corpus), near-zero Mach numbers, IAS 0/1 kt and slow references in is50or60.')
+        ' Also: DF20 altitudes from -1000 to 50000 ft with the edge of the 20 kt IAS/Mach rule, BDS 5,3 status rules (is53), is50or60 reference altitudes from -1000 to 50000 ft incl. -1, 0, 1 as ints and floats, helper calls on the same string first, 10 000 real DF20/21 replies labelled by the reference rules (leg corpus), near-zero Mach numbers, IAS 0/1 kt and slow references in is50or60.'
+        ' Leg scan_order: neighbour scans (altitude code, Mach, IAS, is50or60 references) in opposite orders in two fresh copies of the package.')
 ASSUMPTIONS = ["reference rules ref/registers.py: envelope as quoted in the property; payloads outside the envelope or with only a sign bit set under a clear status are not judged",
                "BDS 3,0 completeness uses the conservative subset TTI != 3 and ARA bits 16-22 < 48", "IAS/Mach consistency judged with an 18 kt margin (rule is 20 kt)"]
 
